@@ -116,7 +116,9 @@ def gen_case(rng):
     if env == "formfeed":
         # a form feed / vertical tab inside an earlier comment or blank area: whitespace for the lexer
         text = text.replace("LABEL(top)\n", "LABEL(top) //\x0c ff\n\x0b\n", 1)
-    return dict(kind=kind, frag=frag, where=where, tok=tok, env=env, marked=text)
+    # any of these layouts may also be the content of an included file (the including file is fixed): conditional blocks,
+    # comments and raw line breaks in front of the fault inside an include
+    return dict(kind=kind, frag=frag, where=where, tok=tok, env=env, marked=text, include=(env == "include" or rng.random() < 0.3))
 
 
 def unmark(marked):
@@ -158,7 +160,7 @@ def run_case(case, d):
     text, a, b = unmark(case["marked"])
     path = os.path.join(d, "main.hera")
     user_text = text
-    if case["env"] == "include":
+    if case["env"] == "include" or case.get("include"):
         inc = os.path.join(d, "part.hera")
         with open(inc, "w", newline="") as f:
             f.write(text)
